@@ -21,6 +21,8 @@ block → compact block → hydrate.  Lines (see `harness/src/bin/tx.rs`):
     tx bval <prevoff-hex> <height> <version> <claimed fees> => ok | err:<E>   (Block::validate)
     tx bvread <height>                      => ok | err:<E>                    (Block::validate_read)
     tx cbids <block-hash> <nonce> [kernel hashes] => [short ids in kern_ids order]
+    tx retr <shape> [sid number per kernel rank] tag:k,k;tag:k… [ids asked for] => [tags returned] [ids missing]
+    tx retrhyd <shape>                      => hydrated-same    (run `retr`)
 -/
 namespace GV.Drv.TxD
 open GV GV.Drv GV.Tx
@@ -112,6 +114,17 @@ def showRes : Except Err Tx → String
 def parseGroups (s : String) : Option (List (List Nat)) :=
   if s == "-" then some [] else (s.splitOn ";").mapM parseNatList
 
+/-- `tag:k1,k2;tag:-;…` : pool entries by equality class and kernel codes (`-` for an empty pool) -/
+def parsePool (s : String) : Option (List Tx) :=
+  if s == "-" then some [] else
+  (s.splitOn ";").mapM fun e =>
+    match e.splitOn ":" with
+    | [tag, ks] =>
+      match tag.toNat?, (if ks == "-" then some [] else (ks.splitOn ",").mapM (·.toNat?)) with
+      | some tag, some ks => some ⟨tag, false, [], [], ks⟩
+      | _, _ => none
+    | _ => none
+
 def St.getTxs (st : St) (idx : List Nat) : Option (List Tx) :=
   idx.mapM (fun i => st.txs[i]?)
 
@@ -167,6 +180,17 @@ def handle (st : St) (args : List String) (impl : String) : St × Verdict :=
     | some height, some b =>
       (st, cmpModel (showBRes (blockValidateRead K st.kmeta CT true b ⟨height, 0, 0⟩)) impl)
     | _, _ => (st, .unknown)
+  -- Pool::retrieve_transactions on a real pool: short-id numbers per kernel rank, pool entries as
+  -- `tag:kernels` (equal tags = equal transactions), the ids asked for
+  | ["retr", _, _, table, pool, ids] =>
+    match parseNatList table, parsePool pool, parseNatList ids with
+    | some table, some pool, some ids =>
+      let sid := fun k => table.getD (k / 2) 0
+      let (txs, missing) := retrieveTransactions sid pool ids
+      (st, cmpSpec s!"{showNatList (txs.map (·.offset))} {showNatList missing}" impl)
+    | _, _, _ => (st, .unknown)
+  -- a pool holding the block's transactions in some grouping (plus unrelated ones) hydrates the block
+  | ["retrhyd", _, _] => (st, cmpSpec "hydrated-same" impl)
   | ["cbids", _, bh, nonce, khs] =>
     match parseHex bh, nat? nonce, parseHexList khs with
     | some bh, some nonce, some khs =>
